@@ -20,6 +20,13 @@ STATIC = ["C09_next_id_monotone", "C09_decode_unique", "C09_names_fresh", "C09_r
     "clone_creates", "clone_keeps_dimension", "clone_keeps_display_when_not_overridden", "clone_subscript",
     "clone_assumptions", "clone_assumptions_passed", "printing_uses_display", "display_is_given", "printing_shows_given_display"]
 
+import re as _re
+GEN_LABEL = _re.compile(r"(SYM|FUN|QTY|SYS|VEC|C)\d+")
+# shapes / entry points that show the generated name on the UNCHANGED tree (measured; outside the property's observe_at list, reported as
+# observations in the design note): str()/repr() go through SymPy's StrPrinter, which prints an applied undefined function by its class name,
+# and print_expression of an unapplied Function class has no display hook
+BASELINE_LEAKS = {("fun", "*", "str"), ("fun", "*", "repr"), ("fun", "unapplied", "print_expression")}
+
 CODE_NAMES = {1: "objects", 2: "counters", 3: "aliasing", 4: "printed-sums", 5: "algebra"}
 CLONE_FN = {"csym": "clone_as_symbol", "cfun": "clone_as_function", "cidx": "clone_as_indexed"}
 
@@ -144,6 +151,29 @@ def spec_failures(case):
             if r["name"] in txt or not txt.startswith(r["display"]):
                 out.append((f"C09:printing:{which}:{r['kind']}", f"{which} of object #{i} with display name {r['display']!r} "
                     f"is {txt!r} (internal name {r['name']})", {"op": op, "printed": txt}))
+    # (4b) every shape of every kind through every entry point: where a display name was given, the generated label never shows
+    for m in case.get("matrix", []):
+        i = m["i"]
+        r = seen[i]
+        if not has_given[i] or (r["kind"] == "qty" and "QTY" in r["display"]) or GEN_LABEL.fullmatch(r["display"] or ""):
+            continue
+        if (r["kind"], m["form"], m["entry"]) in BASELINE_LEAKS or (r["kind"], "*", m["entry"]) in BASELINE_LEAKS:
+            continue
+        if m["form"] == "unapplied" and m["text"].startswith("<raised"):
+            continue            # code_str refuses a Function class that was created without an argument list
+        if r["name"] in m["text"] or r["display"] not in m["text"]:
+            out.append((f"C09:printing:{m['entry']}:{r['kind']}:{m['form']}",
+                f"{m['entry']} of object #{i} ({r['kind']}, display name {r['display']!r}) in the shape '{m['form']}' gives {m['text']!r}: "
+                f"the generated label {r['name']} shows / the display name does not", {"op": ops[i], "i": i, "form": m["form"], "entry": m["entry"],
+                "printed": m["text"]}))
+    # (1c) wrappers of different objects that print alike are different objects with their own argument and dimension
+    for w in case.get("wrappers", []):
+        if "error" in w:
+            continue
+        if w["same_object"] or w["equal"] or not w["factor_own"] or not w["dim_own"]:
+            out.append((f"C09:wrapper-alias:{w['cls']}", f"{w['cls']}(a) and {w['cls']}(b) for two different symbols a, b with the same display name "
+                f"{seen[w['i']]['display']!r}: same object={w['same_object']}, equal={w['equal']}, keep own factor={w['factor_own']}, own dimension={w['dim_own']}",
+                {"i": w["i"], "j": w["j"], "wrapper": w}))
     for s in case["sums"]:
         want = sorted(_term_text(seen[i]) for i in s["idx"])
         if sorted(s["terms"]) != want:
